@@ -590,7 +590,7 @@ func writeManifest() {
 		ID     string `json:"property_id"`
 		Reason string `json:"reason"`
 	}
-	var nas []na
+	nas := []na{}
 	for _, n := range props.NotApplicable {
 		nas = append(nas, na{n.ID, n.Reason})
 	}
